@@ -114,6 +114,34 @@ func verifH_C18_connect() {
 	cs := <-c.connSem
 	c.connSem <- cs
 	wantCONNECT := verifRefCONNECT(e.ref)
+	// second: after a failed attempt a healthy broker is there for the retry.
+	// The retry must succeed, ask for a clean session only if no connection
+	// was ever established, and resend the pending transfers in order (DUP on
+	// those the failed attempt had resent completely).
+	second := func(established bool, resent int) {
+		if verifParam("second", 1) != 1 {
+			return
+		}
+		off := 0
+		for i := range e.o.q1 {
+			off += len(e.o.q1[i].packet)
+			if off <= resent {
+				e.o.q1[i].written = true
+			}
+		}
+		for i := range e.o.q2 {
+			off += len(e.o.q2[i].packet)
+			if off <= resent {
+				e.o.q2[i].written = true
+			}
+		}
+		ref2 := *e.ref
+		ref2.cleanSession = e.clean1 && !established
+		got, after := verifNextConnection2(c, e.o.store, "C18(retry)", !ref2.cleanSession)
+		verifAssert(verifBytesEq(got, verifRefCONNECT(&ref2)), "C18: the CONNECT of the retry after a failed attempt differs from the reference (clean session is asked only until a connection was established)")
+		want2 := append(verifWireOf(e.o.q1), verifWireOf(e.o.q2)...)
+		verifAssert(verifBytesEq(after, want2), "C18: the retry after a failed attempt does not resend exactly the pending transfers in order")
+	}
 	if e.d.fail {
 		verifAssert(err != nil, "C18: connect succeeded without a connection")
 		verifAssert(errors.Is(err, verifErrDial), "C18: dial error not reported")
@@ -125,6 +153,7 @@ func verifH_C18_connect() {
 			verifAssert(cs == e.prev, "C18: connSem changed by a failed dial")
 		}
 		verifAssert(c.readConn == nil, "C18: read connection installed after a failed dial")
+		second(false, 0)
 		verifReach("dial-failed")
 		return
 	}
@@ -139,6 +168,7 @@ func verifH_C18_connect() {
 		verifAssert(tok == connDown, "C18: write token not connDown after a failed CONNECT")
 		verifAssert(conn.closed, "C18: connection left open after a failed CONNECT")
 		verifAssert(c.readConn == nil, "C18: read connection installed after a failed CONNECT")
+		second(false, 0)
 		verifReach("connect-write-failed")
 		return
 	}
@@ -167,6 +197,7 @@ func verifH_C18_connect() {
 		} else {
 			verifAssert(cs == e.prev, "C18: connSem changed although the handshake did not complete")
 		}
+		second(false, 0)
 		switch {
 		case headerBad:
 			verifAssert(errors.Is(err, errProtoReset), "C18: malformed CONNACK not reported as protocol violation")
@@ -201,6 +232,7 @@ func verifH_C18_connect() {
 		verifAssert(conn.closed, "C18: connection left open after a failed resend")
 		verifAssert(c.readConn == nil, "C18: read connection installed after a failed resend")
 		verifAssert(!verifIsReleased(c.Online()), "C18: Online released after a failed resend")
+		second(true, k-len(wantCONNECT))
 		verifReach("resend-failed")
 		return
 	}
